@@ -1,5 +1,680 @@
-//! Controlled scheduler (stub; filled in with the nREPL exploration).
+//! Controlled scheduler with replay, plus drop-in `mpsc` / `thread`
+//! shims.
+//!
+//! Outside a controlled run the shims are ordinary condvar-based
+//! channels and `std::thread` wrappers. Inside a controlled run
+//! (`run_controlled`) every participating thread is a *task*; exactly
+//! one task holds the baton, and the baton moves only at *points*:
+//! every shim operation (`send`, `recv`, `recv_timeout`, `spawn`,
+//! `join`) and every explicit `point(label)` / `spin(label)` call.
+//! At each point the scheduler lists the alternatives in a canonical
+//! order, follows the given choice prefix and then always takes
+//! alternative 0, and records what it did, so an execution is a
+//! function of its prefix.
+//!
+//! Alternatives at a point: every enabled task (the running task
+//! first, unless it is spinning, then ascending ids), followed by one
+//! "timer fires" alternative per task parked in `recv_timeout` on an
+//! empty, connected channel. Time is virtual: `recv_timeout` never
+//! consults a clock.
 
-/// A scheduling point. No-op unless a controlled run is active.
-#[inline]
-pub fn point(_label: &'static str) {}
+use std::cell::Cell;
+use std::collections::BTreeMap;
+use std::sync::{Arc, Condvar, Mutex};
+
+type Probe = Arc<dyn Fn() -> Ready + Send + Sync>;
+
+#[derive(Clone, Copy, PartialEq, Eq, Debug)]
+enum Ready {
+    /// The wait can complete now (data available, peer gone, task finished).
+    Yes,
+    /// Nothing to receive yet.
+    No,
+}
+
+#[derive(Clone)]
+enum Wait {
+    None,
+    /// Blocked until the probe says yes.
+    Block(Probe),
+    /// Like `Block`, but a timer may fire instead.
+    Timed(Probe),
+    Join(usize),
+    Counter(String, u64),
+}
+
+#[derive(Clone, Copy, PartialEq, Eq, Debug)]
+pub enum Decision {
+    Go,
+    Timeout,
+}
+
+struct Task {
+    name: String,
+    finished: bool,
+    wait: Wait,
+    label: String,
+    decision: Decision,
+}
+
+pub struct PointRecord {
+    pub by: usize,
+    pub label: String,
+    /// (task, label the task is parked at, is_timeout)
+    pub alts: Vec<(usize, String, bool)>,
+    pub choice: usize,
+    /// The running task could have continued (so another choice is a preemption).
+    pub by_enabled: bool,
+    pub spinning: bool,
+}
+
+struct Sched {
+    tasks: Vec<Task>,
+    current: usize,
+    prefix: Vec<usize>,
+    trace: Vec<PointRecord>,
+    horizon: usize,
+    counters: BTreeMap<String, u64>,
+    notes: Vec<(usize, usize, String)>,
+    ended: Option<String>,
+    next_chan: usize,
+}
+
+static SCHED: Mutex<Option<Sched>> = Mutex::new(None);
+static CV: Condvar = Condvar::new();
+
+thread_local! {
+    static TASK_ID: Cell<Option<usize>> = const { Cell::new(None) };
+}
+
+fn me() -> Option<usize> {
+    TASK_ID.with(|t| t.get())
+}
+
+/// Is the calling thread a task of a controlled run?
+pub fn controlled() -> bool {
+    me().is_some()
+}
+
+impl Sched {
+    fn enabled(&self, t: usize) -> (bool, bool) {
+        // (normally enabled, timeout alternative available)
+        let task = &self.tasks[t];
+        if task.finished {
+            return (false, false);
+        }
+        match &task.wait {
+            Wait::None => (true, false),
+            Wait::Block(p) => (p() == Ready::Yes, false),
+            Wait::Timed(p) => {
+                let r = p() == Ready::Yes;
+                (r, !r)
+            }
+            Wait::Join(other) => (self.tasks[*other].finished, false),
+            Wait::Counter(name, n) => (self.counters.get(name).copied().unwrap_or(0) >= *n, false),
+        }
+    }
+
+    fn alternatives(&self, by: usize, spinning: bool) -> (Vec<(usize, String, bool)>, bool) {
+        let mut normal = vec![];
+        let mut timeouts = vec![];
+        let mut by_enabled = false;
+        for t in 0..self.tasks.len() {
+            let (en, to) = self.enabled(t);
+            if en {
+                if t == by {
+                    by_enabled = true;
+                } else {
+                    normal.push((t, self.tasks[t].label.clone(), false));
+                }
+            }
+            if to {
+                timeouts.push((t, self.tasks[t].label.clone(), true));
+            }
+        }
+        let mut alts = vec![];
+        if by_enabled && !spinning {
+            alts.push((by, self.tasks[by].label.clone(), false));
+        }
+        alts.extend(normal);
+        if by_enabled && spinning {
+            alts.push((by, self.tasks[by].label.clone(), false));
+        }
+        alts.extend(timeouts);
+        (alts, by_enabled)
+    }
+
+    /// Pick the next task at a point reached by `by`. Returns false if the run ended.
+    fn schedule(&mut self, by: usize, spinning: bool) -> bool {
+        if self.ended.is_some() {
+            return false;
+        }
+        let (alts, by_enabled) = self.alternatives(by, spinning);
+        if alts.is_empty() {
+            let blocked: Vec<String> = self
+                .tasks
+                .iter()
+                .enumerate()
+                .filter(|(_, t)| !t.finished)
+                .map(|(i, t)| format!("{}:{}@{}", i, t.name, t.label))
+                .collect();
+            self.ended = Some(format!("quiescent blocked=[{}]", blocked.join(", ")));
+            return false;
+        }
+        if self.trace.len() >= self.horizon {
+            self.ended = Some("horizon".to_owned());
+            return false;
+        }
+        let pos = self.trace.len();
+        let choice = if pos < self.prefix.len() { self.prefix[pos] } else { 0 };
+        if choice >= alts.len() {
+            self.ended = Some(format!(
+                "DIVERGED: prefix choice {choice} at point {pos} but only {} alternatives",
+                alts.len()
+            ));
+            return false;
+        }
+        let (t, _, is_timeout) = alts[choice].clone();
+        let label = self.tasks[by].label.clone();
+        self.trace.push(PointRecord {
+            by,
+            label,
+            alts,
+            choice,
+            by_enabled,
+            spinning,
+        });
+        let chosen_label = format!("label:{}", self.tasks[t].label);
+        *self.counters.entry(chosen_label).or_default() += 1;
+        self.tasks[t].decision = if is_timeout { Decision::Timeout } else { Decision::Go };
+        self.tasks[t].wait = Wait::None;
+        self.current = t;
+        true
+    }
+}
+
+fn end_run() -> ! {
+    // Wake the main thread, which prints the result and exits the process.
+    CV.notify_all();
+    loop {
+        std::thread::park();
+    }
+}
+
+fn yield_point(label: &str, wait: Wait, spinning: bool) -> Decision {
+    let Some(id) = me() else { return Decision::Go };
+    let mut guard = SCHED.lock().unwrap();
+    let ok = match guard.as_mut() {
+        None => return Decision::Go,
+        Some(s) => {
+            s.tasks[id].label = label.to_owned();
+            s.tasks[id].wait = wait;
+            s.schedule(id, spinning)
+        }
+    };
+    if !ok {
+        drop(guard);
+        end_run();
+    }
+    if guard.as_ref().unwrap().current != id {
+        CV.notify_all();
+        loop {
+            guard = CV.wait(guard).unwrap();
+            let s = guard.as_ref().unwrap();
+            if s.ended.is_some() {
+                drop(guard);
+                end_run();
+            }
+            if s.current == id {
+                break;
+            }
+        }
+    }
+    let d = guard.as_ref().unwrap().tasks[id].decision;
+    d
+}
+
+/// A scheduling point before an operation on shared state.
+pub fn point(label: &'static str) {
+    if controlled() {
+        yield_point(label, Wait::None, false);
+    }
+}
+
+/// A scheduling point inside a loop that may not terminate on its
+/// own: other enabled tasks are preferred by the default policy.
+pub fn spin(label: &'static str) {
+    if controlled() {
+        yield_point(label, Wait::None, true);
+    }
+}
+
+/// Block the calling task until the named counter reaches `n`.
+pub fn wait_counter(label: &str, counter: &str, n: u64) {
+    if controlled() {
+        yield_point(label, Wait::Counter(counter.to_owned(), n), false);
+    }
+}
+
+/// Append a note to the trace (no scheduling).
+pub fn note(text: String) {
+    let Some(id) = me() else { return };
+    if let Some(s) = SCHED.lock().unwrap().as_mut() {
+        let at = s.trace.len();
+        s.notes.push((at, id, text));
+    }
+}
+
+/// Increment a counter (no scheduling).
+pub fn count(name: &str) {
+    if !controlled() {
+        return;
+    }
+    if let Some(s) = SCHED.lock().unwrap().as_mut() {
+        *s.counters.entry(name.to_owned()).or_default() += 1;
+    }
+}
+
+fn register_task(name: String) -> Option<usize> {
+    let mut guard = SCHED.lock().unwrap();
+    let s = guard.as_mut()?;
+    s.tasks.push(Task {
+        name,
+        finished: false,
+        wait: Wait::None,
+        label: "start".to_owned(),
+        decision: Decision::Go,
+    });
+    Some(s.tasks.len() - 1)
+}
+
+fn task_body_start(id: usize) {
+    TASK_ID.with(|t| t.set(Some(id)));
+    let mut guard = SCHED.lock().unwrap();
+    loop {
+        let s = guard.as_ref().unwrap();
+        if s.ended.is_some() {
+            drop(guard);
+            end_run();
+        }
+        if s.current == id {
+            return;
+        }
+        guard = CV.wait(guard).unwrap();
+    }
+}
+
+fn task_finish(id: usize, panic_msg: Option<String>) {
+    let mut guard = SCHED.lock().unwrap();
+    let Some(s) = guard.as_mut() else { return };
+    if let Some(m) = panic_msg {
+        let at = s.trace.len();
+        s.notes.push((at, id, format!("PANIC {m}")));
+    }
+    s.tasks[id].finished = true;
+    s.tasks[id].label = "exit".to_owned();
+    if !s.schedule(id, false) {
+        drop(guard);
+        if id == 0 {
+            return;
+        }
+        end_run();
+    }
+    CV.notify_all();
+}
+
+pub struct RunResult {
+    pub trace: Vec<PointRecord>,
+    pub notes: Vec<(usize, usize, String)>,
+    pub end: String,
+    pub tasks: Vec<String>,
+}
+
+/// Run `f` as task 0 of a controlled run and wait for the run to end
+/// (quiescence, horizon or divergence). Other tasks may still be
+/// parked when this returns: the caller is expected to exit the
+/// process.
+pub fn run_controlled(
+    prefix: Vec<usize>,
+    horizon: usize,
+    f: impl FnOnce() + Send + 'static,
+) -> RunResult {
+    {
+        let mut guard = SCHED.lock().unwrap();
+        *guard = Some(Sched {
+            tasks: vec![Task {
+                name: "client".to_owned(),
+                finished: false,
+                wait: Wait::None,
+                label: "start".to_owned(),
+                decision: Decision::Go,
+            }],
+            current: 0,
+            prefix,
+            trace: vec![],
+            horizon,
+            counters: BTreeMap::new(),
+            notes: vec![],
+            ended: None,
+            next_chan: 0,
+        });
+    }
+    // The client runs on its own thread so that this thread can
+    // collect the result when the run ends while the client is parked.
+    std::thread::Builder::new()
+        .name("verif-client".to_owned())
+        .spawn(move || {
+            TASK_ID.with(|t| t.set(Some(0)));
+            let r = std::panic::catch_unwind(std::panic::AssertUnwindSafe(f));
+            let msg = r.err().map(|e| {
+                if let Some(s) = e.downcast_ref::<&str>() {
+                    (*s).to_owned()
+                } else if let Some(s) = e.downcast_ref::<String>() {
+                    s.clone()
+                } else {
+                    "<panic>".to_owned()
+                }
+            });
+            task_finish(0, msg);
+        })
+        .expect("spawn client");
+    // Wait for the end of the run.
+    let mut guard = SCHED.lock().unwrap();
+    loop {
+        if guard.as_ref().unwrap().ended.is_some() {
+            break;
+        }
+        let (g, _) = CV
+            .wait_timeout(guard, std::time::Duration::from_millis(20))
+            .unwrap();
+        guard = g;
+    }
+    // Leave the scheduler in place (ended): parked tasks may still look at it.
+    let s = guard.as_mut().unwrap();
+    RunResult {
+        trace: std::mem::take(&mut s.trace),
+        notes: std::mem::take(&mut s.notes),
+        end: s.ended.clone().unwrap_or_default(),
+        tasks: s.tasks.iter().map(|t| t.name.clone()).collect(),
+    }
+}
+
+// -----------------------------------------------------------------
+
+pub mod mpsc {
+    //! Drop-in replacement for the part of `std::sync::mpsc` that
+    //! `nrepl.rs` uses.
+    use super::{controlled, yield_point, Decision, Probe, Ready, Wait, SCHED};
+    use std::collections::VecDeque;
+    use std::sync::{Arc, Condvar, Mutex};
+    use std::time::{Duration, Instant};
+
+    struct State<T> {
+        queue: VecDeque<T>,
+        senders: usize,
+        receiver_alive: bool,
+    }
+
+    struct Chan<T> {
+        id: usize,
+        state: Mutex<State<T>>,
+        cv: Condvar,
+    }
+
+    pub struct Sender<T> {
+        chan: Arc<Chan<T>>,
+    }
+
+    pub struct Receiver<T> {
+        chan: Arc<Chan<T>>,
+    }
+
+    #[derive(Debug)]
+    pub struct SendError<T>(pub T);
+
+    #[derive(Debug, PartialEq, Eq, Clone, Copy)]
+    pub struct RecvError;
+
+    #[derive(Debug, PartialEq, Eq, Clone, Copy)]
+    pub enum RecvTimeoutError {
+        Timeout,
+        Disconnected,
+    }
+
+    pub fn channel<T: Send + 'static>() -> (Sender<T>, Receiver<T>) {
+        let id = {
+            let mut g = SCHED.lock().unwrap();
+            match g.as_mut() {
+                Some(s) if controlled() => {
+                    s.next_chan += 1;
+                    s.next_chan - 1
+                }
+                _ => usize::MAX,
+            }
+        };
+        let chan = Arc::new(Chan {
+            id,
+            state: Mutex::new(State {
+                queue: VecDeque::new(),
+                senders: 1,
+                receiver_alive: true,
+            }),
+            cv: Condvar::new(),
+        });
+        (
+            Sender {
+                chan: Arc::clone(&chan),
+            },
+            Receiver { chan },
+        )
+    }
+
+    impl<T> Clone for Sender<T> {
+        fn clone(&self) -> Self {
+            self.chan.state.lock().unwrap().senders += 1;
+            Sender {
+                chan: Arc::clone(&self.chan),
+            }
+        }
+    }
+
+    impl<T> Drop for Sender<T> {
+        fn drop(&mut self) {
+            let mut st = self.chan.state.lock().unwrap();
+            st.senders -= 1;
+            if st.senders == 0 {
+                self.chan.cv.notify_all();
+            }
+        }
+    }
+
+    impl<T> Drop for Receiver<T> {
+        fn drop(&mut self) {
+            self.chan.state.lock().unwrap().receiver_alive = false;
+        }
+    }
+
+    impl<T> Sender<T> {
+        pub fn send(&self, value: T) -> Result<(), SendError<T>> {
+            if controlled() {
+                yield_point(&format!("send.ch{}", self.chan.id), Wait::None, false);
+            }
+            let mut st = self.chan.state.lock().unwrap();
+            if !st.receiver_alive {
+                return Err(SendError(value));
+            }
+            st.queue.push_back(value);
+            drop(st);
+            self.chan.cv.notify_all();
+            if controlled() {
+                super::note(format!("sent ch{}", self.chan.id));
+                super::count(&format!("sent.ch{}", self.chan.id));
+            }
+            Ok(())
+        }
+    }
+
+    impl<T: Send + 'static> Receiver<T> {
+        fn probe(&self) -> Probe {
+            let chan = Arc::clone(&self.chan);
+            Arc::new(move || {
+                let st = chan.state.lock().unwrap();
+                if !st.queue.is_empty() || st.senders == 0 {
+                    Ready::Yes
+                } else {
+                    Ready::No
+                }
+            })
+        }
+
+        pub fn recv(&self) -> Result<T, RecvError> {
+            if controlled() {
+                yield_point(&format!("recv.ch{}", self.chan.id), Wait::Block(self.probe()), false);
+                let mut st = self.chan.state.lock().unwrap();
+                return match st.queue.pop_front() {
+                    Some(v) => Ok(v),
+                    None => Err(RecvError),
+                };
+            }
+            let mut st = self.chan.state.lock().unwrap();
+            loop {
+                if let Some(v) = st.queue.pop_front() {
+                    return Ok(v);
+                }
+                if st.senders == 0 {
+                    return Err(RecvError);
+                }
+                st = self.chan.cv.wait(st).unwrap();
+            }
+        }
+
+        pub fn recv_timeout(&self, timeout: Duration) -> Result<T, RecvTimeoutError> {
+            if controlled() {
+                let d = yield_point(
+                    &format!("recv_timeout.ch{}", self.chan.id),
+                    Wait::Timed(self.probe()),
+                    false,
+                );
+                if d == Decision::Timeout {
+                    return Err(RecvTimeoutError::Timeout);
+                }
+                let mut st = self.chan.state.lock().unwrap();
+                return match st.queue.pop_front() {
+                    Some(v) => Ok(v),
+                    None => Err(RecvTimeoutError::Disconnected),
+                };
+            }
+            let deadline = Instant::now() + timeout;
+            let mut st = self.chan.state.lock().unwrap();
+            loop {
+                if let Some(v) = st.queue.pop_front() {
+                    return Ok(v);
+                }
+                if st.senders == 0 {
+                    return Err(RecvTimeoutError::Disconnected);
+                }
+                let now = Instant::now();
+                if now >= deadline {
+                    return Err(RecvTimeoutError::Timeout);
+                }
+                let (g, _) = self.chan.cv.wait_timeout(st, deadline - now).unwrap();
+                st = g;
+            }
+        }
+
+        /// Everything queued right now (no scheduling).
+        pub fn drain(&self) -> Vec<T> {
+            self.chan.state.lock().unwrap().queue.drain(..).collect()
+        }
+    }
+}
+
+pub mod thread {
+    //! Drop-in replacement for the part of `std::thread` that
+    //! `nrepl.rs` uses.
+    use super::{controlled, register_task, task_body_start, task_finish, yield_point, Wait};
+    use std::io;
+    use std::time::Duration;
+
+    pub struct Builder {
+        name: Option<String>,
+    }
+
+    pub struct JoinHandle<T> {
+        inner: std::thread::JoinHandle<T>,
+        task: Option<usize>,
+    }
+
+    impl Builder {
+        #[allow(clippy::new_without_default)]
+        pub fn new() -> Self {
+            Builder { name: None }
+        }
+
+        pub fn name(mut self, name: String) -> Self {
+            self.name = Some(name);
+            self
+        }
+
+        pub fn spawn<F, T>(self, f: F) -> io::Result<JoinHandle<T>>
+        where
+            F: FnOnce() -> T + Send + 'static,
+            T: Send + 'static,
+        {
+            let mut b = std::thread::Builder::new();
+            if let Some(n) = &self.name {
+                b = b.name(n.clone());
+            }
+            if !controlled() {
+                return b.spawn(f).map(|inner| JoinHandle { inner, task: None });
+            }
+            let id = register_task(self.name.clone().unwrap_or_else(|| "thread".to_owned()));
+            let Some(id) = id else {
+                return b.spawn(f).map(|inner| JoinHandle { inner, task: None });
+            };
+            let inner = b.spawn(move || {
+                task_body_start(id);
+                let r = std::panic::catch_unwind(std::panic::AssertUnwindSafe(f));
+                match r {
+                    Ok(v) => {
+                        task_finish(id, None);
+                        v
+                    }
+                    Err(e) => {
+                        let msg = if let Some(s) = e.downcast_ref::<&str>() {
+                            (*s).to_owned()
+                        } else if let Some(s) = e.downcast_ref::<String>() {
+                            s.clone()
+                        } else {
+                            "<panic>".to_owned()
+                        };
+                        task_finish(id, Some(msg));
+                        std::panic::resume_unwind(e)
+                    }
+                }
+            })?;
+            yield_point("spawn", Wait::None, false);
+            Ok(JoinHandle {
+                inner,
+                task: Some(id),
+            })
+        }
+    }
+
+    impl<T> JoinHandle<T> {
+        pub fn join(self) -> std::thread::Result<T> {
+            if let (true, Some(t)) = (controlled(), self.task) {
+                yield_point("join", Wait::Join(t), false);
+            }
+            self.inner.join()
+        }
+    }
+
+    pub fn sleep(d: Duration) {
+        if controlled() {
+            yield_point("sleep", Wait::None, true);
+        } else {
+            std::thread::sleep(d);
+        }
+    }
+}
